@@ -1718,6 +1718,9 @@ void Validator::ValidatorImpl::validateAndCleanCnNode(const XmlNodePtr &node, co
 void Validator::ValidatorImpl::validateAndCleanCiNode(const XmlNodePtr &node, const ComponentPtr &component, const NameList &variableNames)
 {
     XmlNodePtr childNode = node->firstChild();
+    while ((childNode != nullptr) && childNode->isComment()) {
+        childNode = childNode->next();
+    }
     std::string textInNode = text(childNode);
     if (!textInNode.empty()) {
         // Check whether we can find this text as a variable name in this component.
